@@ -208,6 +208,25 @@ theorem resolvePaths_missing (w : World) (pre post : List Str) (p : Str) (hp : L
     | some r =>
       simp only [List.cons_append, resolvePaths, hl, ih (fun x hx => hpre x (List.mem_cons_of_mem _ hx))]
 
+/-- `COMPOSE_FILE=a:b:c` (entries without the separator) is split back into `a`, `b`, `c` -/
+theorem splitOn_join (c : Char) (parts : List Str) (hne : parts ≠ []) (h : ∀ p ∈ parts, c ∉ p) :
+    splitOn [c] (joinWith c parts) = parts := by
+  apply splitOnFuel_join c parts hne h
+  -- the joined string is at least as long as the number of separators
+  have : ∀ ps : List Str, ps ≠ [] → ps.length ≤ (joinWith c ps).length + 1 := by
+    intro ps
+    induction ps with
+    | nil => intro h; exact absurd rfl h
+    | cons x xs ih =>
+      intro _
+      cases xs with
+      | nil => simp [joinWith]
+      | cons y ys =>
+        have := ih (List.cons_ne_nil _ _)
+        simp [joinWith] at this ⊢
+        omega
+  exact this parts hne
+
 /-- the default-name search, one step: a directory that holds a default file name answers with the first such
     name in order of preference, plus the first override name present in the SAME directory -/
 theorem searchUp_here (w : World) (fuel d : Nat) (winner : Str) (rest : List Str)
@@ -355,6 +374,25 @@ theorem name_decision_documented_order (w : World) (pre : List Opt)
   rw [runOpts_name w _ _ o' ho]
   simp [requestedName]
 
+
+/-- in the documented order (`… WithDotEnv, WithConfigFileEnv`) with no config path given, the `COMPOSE_FILE`
+    (and separator) consulted are the ones of the layered project environment explicit > OS > .env -/
+theorem compose_file_documented_order (w : World) (pre : List Opt) (hpre : ∀ x ∈ pre, x ≠ .withDotEnv)
+    (o0 o1 : PO) (h0 : o0.env = []) (h : runOpts w (pre ++ [.withDotEnv]) o0 = .ok o1) (hc : o1.configs = []) :
+    ∃ m, (∀ k, o1.env.get k = lookupLayers [explicitLayer pre, osLayer w pre, m] k) ∧
+      applyOpt w o1 .withConfigFileEnv =
+        match lookupLayers [explicitLayer pre, osLayer w pre, m] composeFileKey with
+        | none => .ok o1
+        | some f =>
+          match resolvePaths w (splitOn (pathSep o1) f) with
+          | .ok rs => .ok { o1 with configs := rs }
+          | .error e => .error e := by
+  obtain ⟨_, m, _, _, _, hk⟩ := env_precedence_documented_order w pre hpre o0 o1 h0 h
+  refine ⟨m, hk, ?_⟩
+  rw [← hk composeFileKey]
+  cases hf : o1.env.get composeFileKey with
+  | none => exact configFileEnv_unset w o1 hc hf
+  | some f => exact configFileEnv_selects w o1 hc f hf
 
 /-! ## the env files -/
 
